@@ -317,6 +317,30 @@ fn parse_txt_payload(payload: &str) -> Result<Vec<ScionIpAddr>, TxtParseError> {
     Ok(addresses)
 }
 
+/// Verification hooks (cargo feature `verif-hooks`, off by default; add-only): the private,
+/// pure TXT record parser for the correspondence harness of /verif (property C15).
+#[cfg(feature = "verif-hooks")]
+pub mod verif_hooks {
+    use sciparse::address::ip_addr::ScionIpAddr;
+
+    /// `None`: the record does not carry the `scion=v1;` prefix (ignored by the resolver).
+    /// `Some(Err(code))`: the payload is rejected; `code` numbers the `TxtParseError` variant.
+    pub fn parse_txt_record(record: &str) -> Option<Result<Vec<ScionIpAddr>, u8>> {
+        let payload = record.strip_prefix(super::SCION_TXT_PREFIX)?;
+        Some(super::parse_txt_payload(payload).map_err(|e| {
+            match e {
+                super::TxtParseError::MissingAddressList => 1,
+                super::TxtParseError::ExpectedOpenBracket(_) => 2,
+                super::TxtParseError::MissingCloseBracket(_) => 3,
+                super::TxtParseError::MissingSeparator(_) => 4,
+                super::TxtParseError::InvalidIsdAsn(_) => 5,
+                super::TxtParseError::InvalidHost(_) => 6,
+                super::TxtParseError::ExpectedComma(_) => 7,
+            }
+        }))
+    }
+}
+
 fn txt_record_to_string(txt: &TXT) -> Result<String, InvalidEntry> {
     let bytes: Vec<u8> = txt
         .txt_data()
